@@ -45,14 +45,67 @@ def create(typ, text, culture):
     return cls.create(text, culture)
 
 
+_CLASSES: dict | None = None
+
+
+def culture_classes() -> dict:
+    """All ICU cultures grouped by the structural features of their data that the pattern code branches on.
+
+    Computed once per process (about 7 s; call it in the parent before forking workers so that they inherit it)."""
+    global _CLASSES
+    if _CLASSES is not None:
+        return _CLASSES
+    import icu
+    from pyoda_time._compatibility._culture_info import CultureInfo
+    from pyoda_time.globalization._pyoda_format_info import _PyodaFormatInfo
+
+    cls: dict = {"all": [], "genitive_differs": [], "genitive_prefix_of_plain": [], "plain_prefix_of_genitive": [], "time_sep": [], "date_sep": [],
+                 "ampm_odd": [], "name_prefix_of_name": []}
+    for nm in sorted(icu.Locale.getAvailableLocales()):
+        try:
+            c = CultureInfo(nm.replace("_", "-"))
+            fi = _PyodaFormatInfo._get_format_info(c)
+            tabs = [list(x)[1:13] for x in (fi.long_month_names, fi.long_month_genitive_names, fi.short_month_names, fi.short_month_genitive_names)]
+            days = [list(x)[1:8] for x in (fi.long_day_names, fi.short_day_names)]
+        except Exception:  # noqa: BLE001
+            continue
+        cls["all"].append(c.name)
+        pairs = [(a.lower(), b.lower()) for a, b in list(zip(tabs[0], tabs[1])) + list(zip(tabs[2], tabs[3])) if a and b]
+        if any(a != b for a, b in pairs):
+            cls["genitive_differs"].append(c.name)
+        if any(a != b and a.startswith(b) for a, b in pairs):
+            cls["genitive_prefix_of_plain"].append(c.name)
+        if any(a != b and b.startswith(a) for a, b in pairs):
+            cls["plain_prefix_of_genitive"].append(c.name)
+        if fi.time_separator != ":":
+            cls["time_sep"].append(c.name)
+        if fi.date_separator != "/":
+            cls["date_sep"].append(c.name)
+        am, pm = fi.am_designator or "", fi.pm_designator or ""
+        if not am or not pm or am[0].lower() == pm[0].lower() or len(am) != len(pm):
+            cls["ampm_odd"].append(c.name)
+        for xs in tabs + days:
+            low = [x.lower() for x in xs if x]
+            if any(a != b and b.startswith(a) for a in low for b in low):
+                cls["name_prefix_of_name"].append(c.name)
+                break
+    _CLASSES = cls
+    return cls
+
+
 def cultures(rnd: random.Random, n: int) -> list:
+    """n cultures: about half drawn from the structural classes (one class each), the rest uniformly."""
     from pyoda_time._compatibility._culture_info import CultureInfo
 
-    import icu
-
-    names = sorted(icu.Locale.getAvailableLocales())
+    cls = culture_classes()
+    picks = []
+    feature_classes = [k for k in cls if k != "all" and cls[k]]
+    rnd.shuffle(feature_classes)
+    for k in feature_classes[: (n + 1) // 2]:
+        picks.append(rnd.choice(cls[k]))
+    names = cls["all"]
     out = []
-    for name in rnd.sample(names, min(len(names), n * 2)):
+    for name in picks + rnd.sample(names, min(len(names), n * 2)):
         try:
             out.append(CultureInfo(name.replace("_", "-")))
         except Exception:  # noqa: BLE001
@@ -60,6 +113,39 @@ def cultures(rnd: random.Random, n: int) -> list:
         if len(out) >= n:
             break
     return out
+
+
+def synthetic_culture(rnd: random.Random):
+    """A culture built the way applications build their own: a clone of a real one with some format data replaced.
+
+    The standard patterns expand to the culture's date/time pattern texts, which may themselves be single letters, malformed
+    or empty; separators and designators may be long, empty or digits."""
+    from pyoda_time._compatibility._culture_info import CultureInfo
+
+    base = CultureInfo.invariant_culture if rnd.random() < 0.5 else (cultures(rnd, 1) or [CultureInfo.invariant_culture])[0]
+    c = base.clone()
+    f = c.date_time_format
+    times = ["t", "T", "HH:mm", "h:mm tt", "H'h'mm", "%H", "'", "HH:mm:ss.FFF", "r", "", "HH:HH", "\\", "hh", "mm:ss"]
+    dates = ["d", "D", "yyyy-MM-dd", "dd/MM/yyyy", "M/d/yy", "%d", "dddd, MMMM d", "'", "", "yyyy yyyy", "G", "MMMM", "dd"]
+    try:
+        if rnd.random() < 0.6:
+            f.short_time_pattern = rnd.choice(times)
+        if rnd.random() < 0.6:
+            f.long_time_pattern = rnd.choice(times)
+        if rnd.random() < 0.6:
+            f.short_date_pattern = rnd.choice(dates)
+        if rnd.random() < 0.6:
+            f.long_date_pattern = rnd.choice(dates)
+        if rnd.random() < 0.3:
+            f.time_separator = rnd.choice([":", ".", "h", "::", " ", "-"])
+        if rnd.random() < 0.3:
+            f.am_designator, f.pm_designator = rnd.choice([("AM", "PM"), ("a", "p"), ("", ""), ("am", "AM"), ("1", "2"), ("x", "")])
+    except Exception:  # noqa: BLE001 - a setter refusing a value is its own business
+        pass
+    try:
+        return CultureInfo.read_only(c)
+    except Exception:  # noqa: BLE001
+        return c
 
 
 def random_pattern(typ: str, rnd: random.Random) -> str:
@@ -162,7 +248,7 @@ def mutate(text: str, rnd: random.Random) -> str:
             t = t[:mt.start()] + rnd.choice(["24:00:00", "24:00", "24:00:01", "23:59:60"])[: mt.end() - mt.start()] + t[mt.end():]
         md = re.search(r"(\d{4})-(\d{2})-(\d{2})", t)
         if md and rnd.random() < 0.4:
-            t = t[:md.start(2)] + rnd.choice(["12-31", "02-29", "02-30", "01-01", "13-01", "00-10"]) + t[md.end(3):]
+            t = t[:md.start(2)] + rnd.choice(["12-31", "02-29", "02-30", "01-01", "13-01", "00-10", "04-31", "06-31", "09-31", "11-31", "04-30", "01-32", "10-00"]) + t[md.end(3):]
         return t
     i = rnd.randrange(len(text))
     if c < 0.25:
